@@ -112,9 +112,9 @@ func TestVerifC08(t *testing.T) {
 	c08Sequential(run)
 	c08Stress(run)
 
-	nh := run.N(250, 4000)
+	nh := run.N(250, 12000)
 	if verifRaceEnabled {
-		nh = run.N(60, 600)
+		nh = run.N(60, 2000)
 	}
 	run.Cases(nh, func(c *vlib.Case) {
 		r := c.R
